@@ -38,11 +38,10 @@ _MEMO = {}
 
 def readers(S):
     facts = S.facts()
-    key = id(facts)
-    if key not in _MEMO:
+    if '_c04_readers' not in facts.__dict__:
         fns = facts.some(Y + 'scan_border', lambda f: not f.is_lambda, 'scan_border<V>')
-        _MEMO[key] = [(f, scan_border_reader(S, f)) for f in fns]
-    return _MEMO[key]
+        facts.__dict__['_c04_readers'] = [(f, scan_border_reader(S, f)) for f in fns]
+    return facts.__dict__['_c04_readers']
 
 
 def emit(S, rule, kind, f, rr, ok_text, minimum=None):
